@@ -197,6 +197,8 @@ pub fn generate(tier: &str, rng: &mut Rng) -> Vec<String> {
     // (c) value containing ':' ; repeated name
     out.push(case_of(kind, &[Ev::Data(trailers_frame(b"grpc-status:0\r\ngrpc-message:a:b\r\n"))]));
     out.push(case_of(kind, &[Ev::Data(trailers_frame(b"x:1\r\nx:2\r\ngrpc-status:0\r\n"))]));
+    out.push(case_of(kind, &[Ev::Data(trailers_frame(b"grpc-message:a:b\r\n"))]));
+    out.push(case_of(kind, &[Ev::Data(trailers_frame(b"x:1\r\nx:2\r\n"))]));
     // (d) body cut inside a frame header
     out.push(case_of(kind, &[Ev::Data(vec![0, 0, 0])]));
     out.push(case_of(kind, &[Ev::Data(vec![0, 0]), Ev::Data([&msg[2..], &tf0[..]].concat())]));
